@@ -517,6 +517,35 @@ WEIGHTS_F2V = ["uniform", "area", "angle", "sum"]
 WEIGHTS_C = ["uniform", "angle", "sum", "area"]   # "area" must be rejected by the corner averages
 
 
+def stored_input(rng, n):
+    """(values, storage) of an input attribute: `values` are what attr[i] READS (total-map semantics), `storage` how they
+    are held: True dense / False sparse fully written / ["d"|"s", default, written indices] - sparse or dense created with
+    a custom default, only some entries (possibly none) written.  Scalars or 3-vectors."""
+    vec = rng.random() < 0.3
+    r = rng.random()
+
+    def val():
+        return [rng.randint(-8, 8) / 4.0 for _ in range(3)] if vec else rng.randint(-8, 8) / 4.0
+
+    def rep(d):
+        return [d, d, d] if vec else d
+    if r < 0.18:      # a constant, fully written
+        c = rng.choice([1, -2, 3.5, 0.25, 7])
+        return [rep(float(c))] * n, rng.random() < 0.5
+    if r < 0.45:      # arbitrary values, fully written
+        return [val() for _ in range(n)], rng.random() < 0.5
+    d = rng.choice([2.5, -1.5, 3.0, 0.0, 0.75])
+    kind = "s" if rng.random() < 0.75 else "d"
+    if r < 0.65:      # NOTHING written: the attribute carries the constant `d` only as its default value
+        return [rep(d)] * n, [kind, d, []]
+    if r < 0.8:       # a constant, partially written (written entries equal the default)
+        w = sorted(rng.sample(range(n), rng.randint(1, max(1, n - 1))))
+        return [rep(d)] * n, [kind, d, w]
+    w = sorted(rng.sample(range(n), rng.randint(1, max(1, n - 1))))   # partially written with other values
+    vals = [val() if i in w else rep(d) for i in range(n)]
+    return vals, [kind, d, w]
+
+
 def attr_values(rng, n, mode):
     if mode == "const":
         c = rng.choice([1, -2, 3.5, 0.25, 7])
@@ -572,14 +601,22 @@ def gen_script(rng, kind, nV, nF, nCorn, nCells, ncalls, geom=None):
         mode = lambda: rng.choice(["const", "rand", "rand"])  # noqa: E731
         pre = lambda n: (None if rng.random() < 0.7 else attr_values(rng, n, "rand"))  # noqa: E731
         dd = lambda: [rng.random() < 0.5, rng.random() < 0.5]  # noqa: E731
-        pool.append(["v2f", None, attr_values(rng, nV, mode())] + dd() + [pre(nF)])
+        def icall(nm, w, n_in, n_out, spell=False):
+            vals, st = stored_input(rng, n_in)
+            vec = isinstance(vals[0], list)
+            p_ = None
+            if rng.random() < 0.3:
+                p_ = [[rng.randint(-8, 8) / 4.0 for _ in range(3)] if vec else rng.randint(-8, 8) / 4.0 for _ in range(n_out)]
+            return [nm, w, vals, st, rng.random() < 0.5, p_] + ([respell(rng, w)] if spell else [])
+        pool.append(icall("v2f", None, nV, nF))
+        pool.append(icall("v2f", None, nV, nF))
         for w in WEIGHTS_F2V:
-            pool.append(["f2v", w, attr_values(rng, nF, mode())] + dd() + [pre(nV), respell(rng, w)])
-        pool.append(["sv2c", None, attr_values(rng, nV, mode())] + dd() + [pre(nCorn)])
-        pool.append(["sf2c", None, attr_values(rng, nF, mode())] + dd() + [pre(nCorn)])
+            pool.append(icall("f2v", w, nF, nV, True))
+        pool.append(icall("sv2c", None, nV, nCorn))
+        pool.append(icall("sf2c", None, nF, nCorn))
         for w in WEIGHTS_C:
-            pool.append(["c2v", w, attr_values(rng, nCorn, mode())] + dd() + [pre(nV), respell(rng, w)])
-            pool.append(["c2f", w, attr_values(rng, nCorn, mode())] + dd() + [pre(nF), respell(rng, w)])
+            pool.append(icall("c2v", w, nCorn, nV, True))
+            pool.append(icall("c2f", w, nCorn, nF, True))
     rng.shuffle(pool)
     return pool[:ncalls]
 
